@@ -94,6 +94,16 @@ def sh(cmd, cwd=None, timeout=None, env=None):
     return p.returncode, p.stdout.decode("utf-8", "replace")
 
 
+def generic_replay(mod, data):
+    """replays of the process-level probes are the same for every property (vh/conc.py); everything else is the property's own"""
+    r = data.get("replay") if isinstance(data, dict) else None
+    kind = r.get("kind") if isinstance(r, dict) else None
+    if kind in ("flags", "pickle", "cold", "env"):
+        from . import conc
+        return {"flags": conc.replay_flags, "pickle": conc.replay_pickle, "cold": conc.replay_cold, "env": conc.replay_env}[kind](r)
+    return mod.replay(data)
+
+
 def prop_modules(pid):
     """the Lean modules holding the theorems of property `pid`: Props/<pid>.lean plus Props/<pid><Suffix>.lean
     (e.g. C04Final, C19Tables0); all declare into namespace Cvss.Props.<pid>"""
@@ -271,7 +281,7 @@ def run_corpus(mod, ctx):
             continue
         try:
             entry = json.loads(line)
-            ok, msg = mod.replay(entry)
+            ok, msg = generic_replay(mod, entry)
         except Exception as e:  # noqa
             ctx.notes.append("corpus entry not replayable: %s" % e)
             continue
@@ -449,6 +459,6 @@ def run_replay(pid, path):
         print("replay file names no concrete input (tie/proof breakage):")
         print(json.dumps(data, indent=1)[:3000])
         return 1
-    ok, msg = mod.replay(data)
+    ok, msg = generic_replay(mod, data)
     print(("REPRODUCED: " if not ok else "NOT REPRODUCED (property holds on this input now): ") + msg)
     return 1 if not ok else 0
